@@ -326,7 +326,7 @@ def small_world(rnd, g_lines=None):
             ops = dict(point=1); steps = rnd.randint(0, 3)
         else:
             ops = dict(point=3, faces=3, basis=4, delete=1, subdiv=0.3); steps = rnd.randint(4, 10)
-        g = gen.Gen(rnd, pool=pool, bad=0.05, snap=False, var=v, ops=ops)
+        g = gen.Gen(rnd, pool=pool, bad=0.05, snap=False, var=v, ops=ops, max_points=5)
         for _ in range(steps):
             g.step()
         lines += g.lines
